@@ -223,6 +223,9 @@ def run_shard(args):
     """Run every sub-check (and enumeration slice) of one property in this process."""
     prop_id, tier, seed, shard, n_shards, only = args
     warnings.simplefilter("ignore")
+    if os.environ.get("VERIF_WATCHDOG"):
+        import faulthandler
+        faulthandler.dump_traceback_later(int(os.environ["VERIF_WATCHDOG"]), exit=True)
     import hypothesis
     from hypothesis import HealthCheck, Phase, given, settings
 
@@ -394,6 +397,9 @@ def report_known_findings(prop_id):
 def main(prop_id, tier, replay=None, only=None):
     from vf.common import import_emsarray
     t0 = time.time()
+    if os.environ.get("VERIF_WATCHDOG"):
+        import faulthandler
+        faulthandler.dump_traceback_later(int(os.environ["VERIF_WATCHDOG"]) + 30, exit=True)
     seed = int(os.environ.get("VERIF_SEED", "1") or "1")
     try:
         import_emsarray()
@@ -433,9 +439,23 @@ def main(prop_id, tier, replay=None, only=None):
     if n_shards == 1:
         results = [run_shard(args[0])]
     else:
-        ctxm = multiprocessing.get_context("fork")
-        with ctxm.Pool(n_shards) as pool:
-            results = pool.map(run_shard, args, chunksize=1)
+        # spawn, not fork: HDF5 / dask threads do not survive a fork.  ProcessPoolExecutor (unlike
+        # multiprocessing.Pool) notices a worker that died instead of waiting for ever.
+        import concurrent.futures
+        limit = float(os.environ.get("VERIF_SHARD_TIMEOUT", "1500" if tier == "quick" else "5400"))
+        ctxm = multiprocessing.get_context("spawn")
+        pool = concurrent.futures.ProcessPoolExecutor(n_shards, mp_context=ctxm)
+        try:
+            futures = [pool.submit(run_shard, a) for a in args]
+            results = [f.result(timeout=limit) for f in futures]
+        except Exception as exc:  # BrokenProcessPool, TimeoutError
+            for proc in list(getattr(pool, "_processes", {}).values()):
+                proc.kill()
+            pool.shutdown(wait=False, cancel_futures=True)
+            print(f"worker pool failed: {type(exc).__name__}: {exc}")
+            print(f"HARNESS-ERROR property={prop_id}")
+            return 2
+        pool.shutdown()
 
     harness = [r["harness"] for r in results if r["harness"]]
     failures = [r["failure"] for r in results if r["failure"]]
